@@ -88,6 +88,20 @@ def build(case, with_mods=True, via="constructor"):
         if "ode_modifier" in kw:
             net.ode_modifier = {k: {"factors": list(v["factors"]), "reactants": [list(x) for x in v["reactants"]]} for k, v in kw["ode_modifier"].items()}
         return net
+    if via == "shared-table":
+        # the caller keeps its tables and uses them for a second network, then changes entries (of its own tables and
+        # through the second network's accessors): the first network targets what it was constructed with
+        rm = dict(kw.get("rate_modifier", {}))
+        om = dict(kw.get("ode_modifier", {}))
+        net = Network(reacs, **({"rate_modifier": rm} if rm else {}), **({"ode_modifier": om} if om else {}))
+        other = Network([Reaction(list(r), list(p), lo, hi, 1e-10, 0.5, 10.0, ReactionType(t), idx) for (r, p, t, lo, hi), idx in zip(BASE[: case["n"]], case["idxs"])],
+                        **({"rate_modifier": rm} if rm else {}), **({"ode_modifier": om} if om else {}))
+        for idx in set(effective_indices(case["idxs"])) | {42}:
+            other.rate_modifier[idx] = "7.0e-7"
+            rm[idx] = "9.0e-9"
+        other.ode_modifier["H"] = {"factors": ["zz"], "reactants": [["H2"]]}
+        om["H2"] = {"factors": ["ww"], "reactants": [["H"]]}
+        return net
     if via == "inplace":
         # ... and entered one by one into the tables the accessors hand out
         net = Network(reacs)
@@ -167,6 +181,7 @@ def run_case(case):
             f1 = render(build(case, True), "dense", TEMPL)
             f2 = render(build(case, True, "setter"), "dense", TEMPL)
             f3 = render(build(case, True, "inplace"), "dense", TEMPL)
+            f4 = render(build(case, True, "shared-table"), "dense", TEMPL)
         o0 = observe(f0)
         o1 = observe(f1)
     except NotC as e:
@@ -183,6 +198,9 @@ def run_case(case):
     if f3 != f1:
         diff = sorted(k for k in f1 if f1[k] != f3.get(k))
         viols.append((f"C13:inplace-differs", f"{label}: the modifiers entered into net.rate_modifier / net.ode_modifier in place render {diff} differently from the same modifiers given to the constructor", case))
+    if f4 != f1:
+        diff = sorted(k for k in f1 if f1[k] != f4.get(k))
+        viols.append((f"C13:shared-table-differs", f"{label}: a second network was built from the same modifier tables and entries were then changed (in the caller's tables and through the second network): the first network renders {diff} differently from a network given the tables alone", case))
     return 1, viols
 
 
